@@ -726,9 +726,9 @@ def selftest():
 
 SUBS = [
     Sub("query", check_query, strategy=strat_query, quick=2000, thorough=25000, workers_quick=4,
-        workers_thorough=16, budget_quick=40, budget_thorough=500),
+        workers_thorough=16, budget_quick=35, budget_thorough=500),
     Sub("bool", check_bool, strategy=strat_bool, quick=2500, thorough=25000, workers_quick=2,
-        workers_thorough=16, budget_quick=20, budget_thorough=300),
+        workers_thorough=16, budget_quick=15, budget_thorough=300),
 ]
 
 _T = [{"k": "S", "n": "a", "a": ["x"], "t": True, "c": [{"k": "D", "n": "b", "a": [1], "t": True, "c": []},
